@@ -424,13 +424,23 @@ func (s *Scanner) ScanTopologyExact(topo *topology.FunctionTopology, funcName st
 		return nil, nil
 	}
 
+	// A signature made from this very topology (same topology hash) is the exact match; a looser
+	// signature that merely scores >= 0.99 and happens to come first in the file must not shadow it.
+	topoHash := detection.GenerateTopologyHash(topo)
+	var first *detection.ScanResult
 	for _, sig := range s.db.Signatures {
 		// Using a strict 0.0 tolerance. We are looking for twins, not cousins.
 		result := detection.MatchSignature(topo, funcName, sig, 0.0)
 		if result.Confidence >= 0.99 {
-			return &result, nil
+			if sig.TopologyHash == topoHash {
+				return &result, nil
+			}
+			if first == nil {
+				r := result
+				first = &r
+			}
 		}
 	}
 
-	return nil, nil
+	return first, nil
 }
